@@ -58,6 +58,26 @@ theorem markDead_get (b : Book) (ds : List Nat) (u : Nat) :
     (b.markDead ds).calls[u]? = (b.calls[u]?).map fun c => if ds.contains u then { c with dead := true } else c := by
   simp [Book.markDead, List.getElem?_mapIdx]
 
+def resetOne (b : Book) (B : List Nat) (u : Nat) (c : Call) : Call :=
+  match c.kind with
+  | .cawait _ => if B.contains u then { c with seen := b.candidates } else c
+  | _ => c
+
+theorem resetSeen_len (b : Book) (B : List Nat) : (b.resetSeen B).calls.length = b.calls.length := by
+  simp [Book.resetSeen]
+
+theorem resetSeen_get (b : Book) (B : List Nat) (u : Nat) :
+    (b.resetSeen B).calls[u]? = (b.calls[u]?).map (resetOne b B u) := by
+  simp only [Book.resetSeen, List.getElem?_mapIdx]
+  cases b.calls[u]? <;> rfl
+
+theorem resetOne_core (b : Book) (B : List Nat) (u : Nat) (c : Call) :
+    (resetOne b B u c).kind = c.kind ∧ (resetOne b B u c).cx = c.cx ∧ (resetOne b B u c).ch = c.ch ∧
+    (resetOne b B u c).ret = c.ret ∧ (resetOne b B u c).dead = c.dead ∧ (resetOne b B u c).preds = c.preds := by
+  unfold resetOne; split
+  · split <;> simp
+  · simp
+
 def addSeen (tgt : Option PRef) (a : Call) : Call :=
   match a.kind with
   | .cawait _ => if a.ret then a else { a with seen := tgt :: a.seen }
@@ -476,7 +496,20 @@ theorem rk_obs (s s' : St) (e : Ev) (o : Obs) (b : Book) (hi : Inv s) (h : RK s 
   | quiesce bb B =>
     simp [Ev.obs] at ho; subst ho
     simp only [step] at hs; split at hs <;> simp at hs; subst hs
-    exact h
+    refine ⟨by simp [Book.update, resetSeen_len, h.len], ?_, ?_⟩
+    · intro u x c hu hc
+      simp only [Book.update] at hc
+      rw [resetSeen_get] at hc
+      cases hcu : b.calls[u]? with
+      | none => simp [hcu] at hc
+      | some c0 =>
+        simp [hcu] at hc; subst hc
+        have := h.call u x c0 hu hcu
+        obtain ⟨h1, h2, h3, h4, _, _⟩ := resetOne_core b B u c0
+        exact ⟨by rw [h1]; exact this.kind, by rw [h2]; exact this.cx, by rw [h3]; exact this.ch,
+          by rw [h4]; exact this.ret⟩
+    · intro p hp
+      exact h.pub p (by simpa [Book.update, Book.resetSeen] using hp)
   | invSet t p v e' =>
     simp [Ev.obs] at ho; subst ho
     simp only [step] at hs; split at hs <;> simp at hs; subst hs
